@@ -12,9 +12,28 @@ CHECKS = {
    note="Controlled in-process pool with the identity schedule (schedules are C12/C15); plotfiles come from the reference writer, "
         "bound to the real AMReX assets by the conformance pass run at the start of every check.",
    tech="bounded-exhaustive exploration of the implementation against a reference model"),
+ "C02": dict(cat="model_checking", design="4/C02",
+   text="Every open PlotfileCooker(path, limit_level in {None,0..finest,finest+1}, header_only, maxmins) on a universe of generated "
+        "plotfiles (2D/3D, 1..4 levels, two origins x three cell shapes x five times fully crossed, repeated field names, "
+        "refinement-ratio line of length L..L+2, scattered layouts with file numbers starting at 1) is executed and every public "
+        "attribute named by the property is compared with the descriptor; header-only opens run on a directory that has no level data.",
+   note="Floats must be bit-equal to float(text); grids to 1e-12 relative. Micro-scale geometry is outside the alphabet.",
+   tech="bounded-exhaustive exploration of the implementation against a reference model"),
+ "C03": dict(cat="model_checking", design="4/C03",
+   text="Taster is run with all 16 option combinations x every level limit x {fail, nofail} on the C01 plotfile universe "
+        "(all layouts of one deviating level, non-finite payloads; NaN-free where binary_data is enabled); it must never raise and must evaluate true.",
+   note="Controlled in-process pool, identity schedule; min/max rows of NaN data are not defined by the format and carry no demand.",
+   tech="bounded-exhaustive exploration of the implementation against a reference model"),
+ "C15": dict(cat="model_checking", design="4/C15",
+   text="list(pck[f][lv]) and list(pck[f][lv].iter(sel)) are executed under every schedule of the per-file / per-box pool tasks "
+        "(all n! execution=completion orders for n <= 4 tasks x lazy|eager consumption, deviation bound 1) on the C01 universe; "
+        "the yielded arrays must equal the reference boxes as a multiset (resp. in requested order) and the iteration must stop.",
+   note="Tasks are atomic read-only units (checked in C12); the pool semantics are those of CPython 3.12 multiprocessing.pool modelled in kv/vpool.py.",
+   tech="stateless schedule exploration (controlled scheduler) of the implementation against a reference model"),
 }
 
 NOT_YET = {}
+
 
 def main():
     props = [json.loads(l) for l in open(os.path.join(HERE, "properties.jsonl"))]
